@@ -296,7 +296,7 @@ def _strategy():
 
 
 def run(ctx):
-    ctx.hyp(_strategy, check_case, max_examples=ctx.pick(3000, 60000))
+    ctx.hyp(_strategy, check_case, max_examples=ctx.pick(3000, 150000))
 
 
 def replay(case):
